@@ -19,7 +19,7 @@ from tools_seed_eval import copy_repo  # noqa: E402
 
 HERE = os.path.dirname(os.path.abspath(__file__))
 PROPS = [f"C{i:02d}" for i in range(1, 20)]
-UNKNOWN_FORM_SEEDS = {"C02", "C14-r4", "C12-r6", "C04-r7", "C06-r7"}  # float re-arrangement of the auto-off arithmetic; duration text via strftime().lstrip("0"); "bits strictly ascending"; CRC recovered with str.replace; gate by the declared length: exit 2 by the unknown-form policy
+UNKNOWN_FORM_SEEDS = {"C02", "C14-r4", "C12-r6", "C04-r7", "C06-r7", "C09-r8", "C14-r8"}  # float re-arrangement of the auto-off arithmetic; duration text via strftime().lstrip("0"); "bits strictly ascending"; CRC recovered with str.replace; gate by the declared length: exit 2 by the unknown-form policy
 
 
 def run_one(sid):
